@@ -59,6 +59,7 @@ void block_me(void);
 uint64_t rnd_fault(void);
 /* fault draw: returns value in [1,maxv] if the fault of this kind fires at this opportunity, else 0 */
 uint64_t fault_draw(int kind, uint32_t inv_prob, uint64_t maxv);
+void sim_internal_timer_was_read(void);
 
 /* allocator */
 void alloc_check(const void* addr, size_t size);
